@@ -130,7 +130,16 @@ class SimParallel(object):
         sched = world.sched
         W = min(n_eff, len(tasks), world.max_workers)
         while len(world.workers) < W:
-            world.workers.append(zygote.Child())
+            ch = zygote.Child()
+            # the worker process gets the same id() seam as the caller's world
+            from . import simid
+            mode = simid.CURRENT[0].mode if simid.CURRENT[0] is not None else "reuse"
+            ch.send_eval("from sim import simid\nsimid.install(mode)\nresult = True", {"mode": mode})
+            msg = ch.recv()
+            if msg[0] != "ok":
+                raise HarnessError("could not install the id seam in a worker: %r" % (msg,))
+            ch.calls = 0
+            world.workers.append(ch)
         workers = world.workers[:W]
         if any(w.calls for w in workers):
             world.stats["worker_reuse"] += 1
